@@ -16,16 +16,22 @@ uint64_t __CPROVER_uninterpreted_mul64(uint64_t, uint64_t);
 uint64_t __CPROVER_uninterpreted_mulh(uint64_t, uint64_t);
 uint64_t __CPROVER_uninterpreted_smulh(uint64_t, uint64_t);
 uint64_t __CPROVER_uninterpreted_rcp(uint32_t);
+#ifdef RXV_EXEC_STANDINS_AS_FUNCTIONS
+/* every-size obligation: the same stand-ins as harness functions (harness_ss_exec.c) - per-call contract replacement made
+   cbmc's symbolic execution of the loop step run out of memory */
+uint64_t rotr(uint64_t a, unsigned int b); uint64_t mulh(uint64_t a, uint64_t b); int64_t smulh(int64_t a, int64_t b); uint64_t randomx_reciprocal(uint32_t divisor);
+#else
 /* rotr is defined in instructions_portable.cpp (another translation unit): contract = rotation right by b mod 64 (enforced on the portable body in C17) */
 uint64_t rotr(uint64_t a, unsigned int b) __CPROVER_requires(1) __CPROVER_assigns()
 __CPROVER_ensures(__CPROVER_return_value == ((b & 63) ? ((a >> (b & 63)) | (a << (64 - (b & 63)))) : a));
 uint64_t mulh(uint64_t a, uint64_t b) __CPROVER_requires(1) __CPROVER_assigns() __CPROVER_ensures(__CPROVER_return_value == __CPROVER_uninterpreted_mulh(a, b));
 int64_t smulh(int64_t a, int64_t b) __CPROVER_requires(1) __CPROVER_assigns() __CPROVER_ensures((uint64_t)__CPROVER_return_value == __CPROVER_uninterpreted_smulh((uint64_t)a, (uint64_t)b));
-uint64_t randomx_reciprocal(uint64_t divisor)
+uint64_t randomx_reciprocal(uint32_t divisor)
 /* the generator never emits IMUL_RCP with a zero or power-of-two divisor (C09 operand rules / C18) */
-__CPROVER_requires(divisor != 0 && (divisor & (divisor - 1)) != 0 && divisor <= 0xffffffffu)
+__CPROVER_requires(divisor != 0 && (divisor & (divisor - 1)) != 0)
 __CPROVER_assigns() __CPROVER_ensures(__CPROVER_return_value == __CPROVER_uninterpreted_rcp((uint32_t)divisor));
 
+#endif
 /* well-formed SuperscalarHash instruction (Table 6.1.1): one of the 14 kinds, registers r0-r7; with a reciprocal cache the
    immediate of IMUL_RCP is an index into it, without one it is the divisor itself */
 extern rxv_u64vec* g_recip;
@@ -33,15 +39,20 @@ extern rxv_u64vec* g_recip;
 	((in)->opcode != SuperscalarInstructionType_IMUL_RCP || (g_recip != NULL ? load32(&(in)->imm32) < g_recip->size \
 		: (load32(&(in)->imm32) != 0 && (load32(&(in)->imm32) & (load32(&(in)->imm32) - 1)) != 0))))
 extern Instruction g_instr;
+#ifdef RXV_EXEC_STANDINS_AS_FUNCTIONS
+static Instruction* rxv_any_instruction(struct SuperscalarProgram* self, int pc);
+#else
 static Instruction* rxv_any_instruction(struct SuperscalarProgram* self, int pc)
 __CPROVER_requires(pc >= 0 && (uint32_t)pc < self->size)
 __CPROVER_assigns(g_instr)
 __CPROVER_ensures(__CPROVER_return_value == &g_instr && RXV_SS_WF(&g_instr));
 
+#endif
 void executeSuperscalar(int_reg_t* r, SuperscalarProgram* prog, rxv_u64vec *reciprocals)
 __CPROVER_requires(__CPROVER_is_fresh(r, 64) && __CPROVER_is_fresh(prog, sizeof(*prog)) && prog->size <= SuperscalarMaxSize)
-__CPROVER_requires(reciprocals == g_recip && (reciprocals == NULL || (__CPROVER_is_fresh(reciprocals, sizeof(*reciprocals)) && reciprocals->size <= ((size_t)1 << 32)
-	&& __CPROVER_is_fresh(reciprocals->data, reciprocals->size * sizeof(uint64_t)))))
+/* the reciprocal cache, when present, is a vector of any length (the harness allocates it with a symbolic size) */
+__CPROVER_requires(reciprocals == g_recip && (reciprocals == NULL || (__CPROVER_r_ok(reciprocals, sizeof(*reciprocals))
+	&& __CPROVER_r_ok(reciprocals->data, reciprocals->size * sizeof(uint64_t)))))
 __CPROVER_assigns(__CPROVER_object_upto(r, 64), g_instr)
 __CPROVER_ensures(1);
 #define RXV_SS_LOOP_INVARIANT __CPROVER_assigns(j, __CPROVER_object_upto(r, 64), g_instr) __CPROVER_loop_invariant(j <= prog->size) __CPROVER_decreases(prog->size - j)
